@@ -36,7 +36,46 @@ type Case struct {
 	Predefined bool       `json:"predefined"` // keep the predefined registry (else it is emptied first)
 	Styles     []StyleDef `json:"styles"`     // in registration order
 	Queries    []string   `json:"queries"`
-	Excluded   string     `json:"excluded,omitempty"` // generator note: the cyclic graph mode that was drawn but replaced while the cycle finding is open
+	// Edits: changes made to the registry after it has been queried; every query is repeated after every edit (the
+	// registry a query sees is the one that is registered at that moment, however it came about)
+	Edits    []Edit `json:"edits,omitempty"`
+	Excluded string `json:"excluded,omitempty"` // generator note: the cyclic graph mode that was drawn but replaced while the cycle finding is open
+}
+
+// Edit is one change of the registry between two rounds of queries.
+//
+//	put:    register Def (AddStyle / CreateCustomStyle / CreateQuickStyle as Def.Via says); an id that is registered is
+//	        replaced (CreateQuickStyle refuses a registered id, so Via "quick" acts as "add" there)
+//	remove: RemoveStyle(ID)
+//	modify: the registered style object (GetStyle) gets the property blocks and the based-on of Def assigned in place,
+//	        the way CreateQuickStyle fills the object CreateCustomStyle has registered; no-op for an unregistered id
+type Edit struct {
+	Op  string    `json:"op"`
+	ID  string    `json:"id,omitempty"`
+	Def *StyleDef `json:"def,omitempty"`
+}
+
+func (e Edit) target() string {
+	if e.Def != nil {
+		return e.Def.ID
+	}
+	return e.ID
+}
+
+// allQueries: the ids asked in every round: the case's queries and every id an edit names.
+func (c Case) allQueries() []string {
+	out := append([]string{}, c.Queries...)
+	seen := map[string]bool{}
+	for _, q := range out {
+		seen[q] = true
+	}
+	for _, e := range c.Edits {
+		if id := e.target(); !seen[id] {
+			seen[id] = true
+			out = append(out, id)
+		}
+	}
+	return out
 }
 
 var ParaElems = []string{"spacing", "indentation", "alignment", "borders", "shading", "keepNext", "keepLines", "pageBreak", "outlineLevel", "snapToGrid"}
@@ -859,6 +898,88 @@ func (reg registry) resolve(id string) *resolved {
 		}
 		cur = next
 	}
+}
+
+// clone gives a registry that can be edited without touching reg (the entries themselves are never written to).
+func (reg registry) clone() registry {
+	out := make(registry, len(reg))
+	for k, v := range reg {
+		out[k] = v
+	}
+	return out
+}
+
+// applyModel makes the edit in the reference registry and says what it amounted to there:
+// replace | add | remove | remove-absent | modify | modify-absent.
+func (reg registry) applyModel(e Edit) string {
+	switch e.Op {
+	case "remove":
+		if _, had := reg[e.ID]; !had {
+			return "remove-absent"
+		}
+		delete(reg, e.ID)
+		return "remove"
+	case "put":
+		d := *e.Def
+		_, had := reg[d.ID]
+		if d.Via == "quick" && !had {
+			// the model takes a quick definition as CreateQuickStyle creates it (definitions are inputs of this property)
+			reg[d.ID] = snapshotStyle(quickDef(d))
+		} else {
+			reg[d.ID] = snapshotStyle(d.literal())
+		}
+		if had {
+			return "replace"
+		}
+		return "add"
+	case "modify":
+		d := *e.Def
+		old, had := reg[d.ID]
+		if !had {
+			return "modify-absent"
+		}
+		nd := deepCopy(reflect.ValueOf(old.Def)).Interface().(*style.Style)
+		nd.ParagraphPr, nd.RunPr = d.props()
+		nd.BasedOn = nil
+		if d.BasedOn != "" {
+			nd.BasedOn = &style.BasedOn{Val: d.BasedOn}
+		}
+		reg[d.ID] = snapshotStyle(nd)
+		return "modify"
+	}
+	return "noop"
+}
+
+var quickScratch *style.StyleManager
+
+// quickDef: the definition CreateQuickStyle creates for d, made in a scratch registry of its own (the literal when the
+// call fails there; the real call then fails as well and is reported as a set-up failure).
+func quickDef(d StyleDef) *style.Style {
+	if quickScratch == nil {
+		quickScratch = style.NewStyleManager()
+		for _, s := range quickScratch.GetAllStyles() {
+			quickScratch.RemoveStyle(s.StyleID)
+		}
+	}
+	st, err := style.NewQuickStyleAPI(quickScratch).CreateQuickStyle(d.quickConfig())
+	quickScratch.RemoveStyle(d.ID)
+	if err != nil || st == nil {
+		return d.literal()
+	}
+	return st
+}
+
+// rounds gives the reference registry of every round: [0] as registered, [k] after the first k edits; kinds[k-1] says
+// what edit k amounted to.
+func (reg registry) rounds(edits []Edit) (regs []registry, kinds []string) {
+	regs = []registry{reg}
+	cur := reg
+	for _, e := range edits {
+		cur = cur.clone()
+		kinds = append(kinds, cur.applyModel(e))
+		regs = append(regs, cur)
+	}
+	return
 }
 
 // reachesCycle reports whether following basedOn from id comes back to a style already passed.
